@@ -25,9 +25,9 @@ var chainOps3 = []string{"decimate", "decimate", "coplanar", "edges", "flip", "s
 
 func genChain3(t *rapid.T) case3 {
 	c := case3{Src: withVariants(t, genSrc3(t, allKinds3, true, "src"), true, true, true, "var")}
-	n := rapid.IntRange(2, 4).Draw(t, "nops")
+	n := gen.Int(t, 2, 4, "nops")
 	for i := 0; i < n; i++ {
-		op := genOp3(t, rapid.SampledFrom(chainOps3).Draw(t, "op"))
+		op := genOp3(t, pickOf(t, chainOps3, "op"))
 		if op.K == "subdiv" && op.I[0] > 3 {
 			op.I[0] = 3
 		}
@@ -41,7 +41,7 @@ func genChain3(t *rapid.T) case3 {
 
 func genDecimateSplit(t *rapid.T) case3 {
 	c := single3("decimate", allKinds3, true, true, true, true)(t)
-	c.Ops[0].I[0] = rapid.SampledFrom([]int{2, 3, 6}).Draw(t, "splitAttempts")
+	c.Ops[0].I[0] = pickOf(t, []int{2, 3, 6}, "splitAttempts")
 	c.Ops[0].B[2] = false
 	return c
 }
@@ -56,9 +56,9 @@ var chainOps2 = []string{"decimate", "colinear", "subdivide", "blur", "smooth", 
 
 func genChain2(t *rapid.T) case2 {
 	c := case2{Src: genSrc2(t, allKinds2, "src")}
-	n := rapid.IntRange(2, 4).Draw(t, "nops")
+	n := gen.Int(t, 2, 4, "nops")
 	for i := 0; i < n; i++ {
-		op := genOp2(t, rapid.SampledFrom(chainOps2).Draw(t, "op"))
+		op := genOp2(t, pickOf(t, chainOps2, "op"))
 		if op.K == "subdivide" && op.I[0] > 2 {
 			op.I[0] = 2
 		}
@@ -69,7 +69,7 @@ func genChain2(t *rapid.T) case2 {
 
 func genArea(t *rapid.T) areaCase {
 	return areaCase{Src: withVariants(t, genSrc3(t, allKinds3, true, "src"), true, true, true, "var"),
-		Frac: gen.LogF(t, 0.05, 1, "frac"), Iters: rapid.IntRange(1, 3).Draw(t, "iters"), API: rapid.IntRange(0, 2).Draw(t, "api")}
+		Frac: gen.LogF(t, 0.05, 1, "frac"), Iters: gen.Int(t, 1, 3, "iters"), API: gen.Int(t, 0, 2, "api")}
 }
 
 // sources with exactly coplanar patches and clear creases, plus everything else subdivided
@@ -80,22 +80,22 @@ func genCoplanar(t *rapid.T) case3 {
 	if s.Kind == "lattice" {
 		s.Iters = 0
 	}
-	if s.Kind != "lattice" && s.Kind != "subbox" || rapid.IntRange(0, 3).Draw(t, "sub.extra") == 0 {
-		s.Sub = rapid.IntRange(1, 3).Draw(t, "sub")
+	if s.Kind != "lattice" && s.Kind != "subbox" || gen.Int(t, 0, 3, "sub.extra") == 0 {
+		s.Sub = gen.Int(t, 1, 3, "sub")
 	}
-	if rapid.IntRange(0, 5).Draw(t, "dup") == 0 {
+	if gen.Int(t, 0, 5, "dup") == 0 {
 		s.Dup = true
 	}
-	if rapid.IntRange(0, 7).Draw(t, "dojitter") == 0 {
+	if gen.Int(t, 0, 7, "dojitter") == 0 {
 		s.Jitter = gen.LogF(t, 0.01, 0.5, "jitter")
-		s.JSeed = rapid.IntRange(0, 1<<20).Draw(t, "jseed")
+		s.JSeed = gen.Int(t, 0, 1<<20, "jseed")
 	}
 	return case3{Src: s, Ops: []op3{genOp3(t, "coplanar")}}
 }
 
 func genSmooth3(t *rapid.T) case3 {
 	s := withVariants(t, genSrc3(t, allKinds3, true, "src"), true, true, true, "var")
-	kind := rapid.SampledFrom([]string{"smooth", "smooth", "voxel"}).Draw(t, "kind")
+	kind := pickOf(t, []string{"smooth", "smooth", "voxel"}, "kind")
 	return case3{Src: s, Ops: []op3{genOp3(t, kind)}}
 }
 
@@ -122,7 +122,7 @@ func TestProp(t *testing.T) {
 		kit.Clause[case2]{Name: "C10/2d/subdivide", Quick: 1000, Thorough: 30000, Budget: budget, Fresh: true, Gen: single2("subdivide", allKinds2), Check: checkOps2},
 		kit.Clause[case2]{Name: "C10/2d/blur", Quick: 1000, Thorough: 30000, Budget: budget, Fresh: true, Gen: single2("blur", allKinds2), Check: checkOps2},
 		kit.Clause[case2]{Name: "C10/2d/smooth", Quick: 1000, Thorough: 30000, Budget: budget, Fresh: true, Gen: func(t *rapid.T) case2 {
-			return case2{Src: genSrc2(t, allKinds2, "src"), Ops: []op2{genOp2(t, rapid.SampledFrom([]string{"smooth", "smoothsq"}).Draw(t, "kind"))}}
+			return case2{Src: genSrc2(t, allKinds2, "src"), Ops: []op2{genOp2(t, pickOf(t, []string{"smooth", "smoothsq"}, "kind"))}}
 		}, Check: checkOps2},
 		kit.Clause[case2]{Name: "C10/2d/chain", Quick: 1500, Thorough: 40000, Budget: budget, Fresh: true, Gen: genChain2, Check: checkOps2},
 	)
